@@ -344,6 +344,20 @@ theorem returned_frame_is_exact (bytes : List UInt8) (f : Frame) (rest : List UI
     (h : readFrame bytes = .frame f rest) : bytes = encode f ++ rest ∧ f.wf :=
   readFrame_exact bytes f rest h
 
+/-- NO 1 MiB BOUND. `read_response_frame` preallocates `min(length, 1 MiB)` for the body (`MAX_BODY_PREALLOCATION`;
+the growth of the buffer beyond it is C08's `readBodyLoop`, `Proofs/C08BodyRead.lean` `readBody_alloc`) but its READ
+LIMIT is the announced `length`: a frame whose body is longer than the preallocation cap is read whole - the model's
+frame read takes exactly `length` bytes whatever their number - and what follows it on the wire is the next frame's
+header, not this body's tail. (An instance of `Proofs.FrameStream.readFrame_encode`, stated for the large case because
+the seeded change C02-7 made the cap the limit; driven by the `B` operation of the `conn` schedules: bodies of 2^20 - 1,
+2^20, 2^20 + 1, 2^20 + 37 and several MiB whose tail looks like a frame for another stream in flight.) -/
+theorem large_body_is_read_whole (f g : Frame) (hf : f.wf) (hg : g.wf) (_hbig : 1048576 ≤ f.body.length)
+    (rest : List UInt8) :
+    readFrame (encode f ++ rest) = .frame f rest ∧
+    readFrame (encode f ++ (encode g ++ rest)) = .frame f (encode g ++ rest) ∧
+    readFrame (encode g ++ rest) = .frame g rest :=
+  ⟨readFrame_encode f hf rest, readFrame_encode f hf _, readFrame_encode g hg rest⟩
+
 /-! ## 5. from bytes to the break: the reader (`Model/ConnIO.lean`) -/
 
 /-- In a state with a dead router, whoever waits is in the push window (`broken_waiter_holds_permit` for any
